@@ -659,6 +659,19 @@ func opPrice(n string) (string, string) {
 	return "ok", "-"
 }
 
+func opRestrict(flag string) (string, string) {
+	e := getEnv()
+	switch flag {
+	case "1":
+		e.bankk.SetRestrictedDenoms(e.caseCtx, []string{"ugnot"})
+	case "0":
+		e.bankk.SetRestrictedDenoms(e.caseCtx, []string{})
+	default:
+		return "err:badop", "-"
+	}
+	return "ok", "-"
+}
+
 func exec(toks []string) (string, string) {
 	bad := func() (string, string) { return "err:badop", "-" }
 	if len(toks) == 0 {
@@ -680,6 +693,10 @@ func exec(toks []string) (string, string) {
 	case "price":
 		if len(toks) == 2 {
 			return opPrice(toks[1])
+		}
+	case "restrict":
+		if len(toks) == 2 {
+			return opRestrict(toks[1])
 		}
 	}
 	return bad()
